@@ -717,11 +717,11 @@ func TestVerifC16BuilderConcurrent(t *testing.T) {
 // ---- C16c: the exported round-tripper under racing completion events ----
 
 type vfRaceCase struct {
-	RespErr      bool `json:"respErr"`      // transport returns an error instead of a response
-	CancelAt     int  `json:"cancelAt"`     // 0: never; 1: before round trip; 2: while reading the body; 3: after the body
-	BodyErr      bool `json:"bodyErr"`      // response body ends with an error
-	CloseEarly   bool `json:"closeEarly"`   // caller closes the body before EOF
-	Concurrent   bool `json:"concurrent"`   // cancel from another goroutine while reading
+	RespErr      bool `json:"respErr"`    // transport returns an error instead of a response
+	CancelAt     int  `json:"cancelAt"`   // 0: never; 1: before round trip; 2: while reading the body; 3: after the body
+	BodyErr      bool `json:"bodyErr"`    // response body ends with an error
+	CloseEarly   bool `json:"closeEarly"` // caller closes the body before EOF
+	Concurrent   bool `json:"concurrent"` // cancel from another goroutine while reading
 	Procs        int  `json:"procs"`
 	Yields       int  `json:"yields"`
 	DoubleClose  bool `json:"doubleClose"`
